@@ -193,6 +193,34 @@ Section Transport.
   Definition cinit (d : DS) (z : ZS) : cst := mkc [] None (mkm false 0 d z) false.
 End Transport.
 
+(** ---------- the queue of sendPacket during a (re-)key exchange ----------
+    One side of the connection.  [KStart] = this side's key-exchange state leaves NONE (sendKexInit, called by the
+    application or in answer to the peer's KEXINIT; it raises and changes nothing when an exchange is already in
+    progress); [KNewKeys] = MSG_NEWKEYS received (_newKeys: state back to NONE, queued messages flushed through
+    sendPacket).  The key-exchange messages themselves are opaque and not part of the history.  [kwire] is the ghost
+    list of application messages handed to the framing layer, in order. *)
+Inductive kop := KSend (t : N) (p : bytes) | KStart | KNewKeys.
+Record kst := mkk { inkex : bool; kq : list (N * bytes); kwire : list (N * bytes) }.
+
+(** _allowedKeyExchangeMessageType *)
+Definition allowed (t : N) : bool :=
+  if (1 <=? t) && (t <=? 19) then negb ((t =? 5) || (t =? 6) || (t =? 7))
+  else if (20 <=? t) && (t <=? 29) then negb (t =? 20)
+  else (30 <=? t) && (t <=? 49).
+
+Definition kstep (s : kst) (o : kop) : kst :=
+  match o with
+  | KSend t p => if inkex s && negb (allowed t) then mkk true (kq s ++ [(t, p)]) (kwire s)
+                 else mkk (inkex s) (kq s) (kwire s ++ [(t, p)])
+  | KStart => if inkex s then s else mkk true [] (kwire s)
+  | KNewKeys => mkk false [] (kwire s ++ kq s)
+  end.
+Definition krun (ops : list kop) : kst := fold_left kstep ops (mkk false [] []).
+
+Definition ksent (ops : list kop) : list (N * bytes) :=
+  flat_map (fun o => match o with KSend t p => [(t, p)] | _ => [] end) ops.
+Definition held (m : N * bytes) : bool := negb (allowed (fst m)).     (* must wait for the end of a key exchange *)
+
 Definition deliveries (l : list ev) : list bytes :=
   flat_map (fun e => match e with EDeliver p => [p] | _ => [] end) l.
 Definition disconnects (l : list ev) : list N :=
